@@ -784,7 +784,7 @@ def materialise(env, roots):
     universe.canonicalise_unions(env, roots)
     for f in getattr(typing, "_cleanups", ()):
         f()
-    src = derive_source(universe.module_source(env, roots), env)
+    src = derive_source(universe.module_source(env, roots, derive=False), env)      # C13 has its own 22 derivation kinds
     mod = impl.new_module(env["module"], src)
     tys = [eval(universe.src_ty(r, env), mod.__dict__) for r in roots]
     return mod, tys, src
